@@ -8,7 +8,7 @@ set -e
 cd "$(dirname "$0")/.."
 T=/tmp/verif_cov; rm -rf $T; mkdir -p $T/prof work/coverage
 LLVM=$(dirname $(find /root/.rustup/toolchains/nightly-x86_64-unknown-linux-gnu -name llvm-profdata | head -1))
-env CARGO_NET_OFFLINE=true RUSTFLAGS="--cfg ark_bulletproofs_verif -A unexpected_cfgs -A warnings -C instrument-coverage" \
+env CARGO_NET_OFFLINE=true LLVM_PROFILE_FILE=$T/build-%p-%m.profraw RUSTFLAGS="--cfg ark_bulletproofs_verif -A unexpected_cfgs -A warnings -C instrument-coverage" \
     CARGO_TARGET_DIR=$T/target cargo +nightly build --release --offline --manifest-path harness/Cargo.toml 2>&1 | tail -2
 PROPS=${@:-C01 C02 C03 C04 C05 C06 C07 C08 C09 C10 C11 C12 C13 C14 C15 C16 C17 C18}
 cp -r evidence $T/evidence.bak
@@ -17,7 +17,7 @@ for P in $PROPS; do
   echo "$P: $(tail -1 $T/$P.log)"
 done
 rm -rf evidence; mv $T/evidence.bak evidence
-$LLVM/llvm-profdata merge -sparse $T/prof/*.profraw -o $T/all.profdata
+rm -f $T/build-*.profraw; $LLVM/llvm-profdata merge -sparse $T/prof/*.profraw -o $T/all.profdata
 $LLVM/llvm-cov report $T/target/release/bpharness -instr-profile=$T/all.profdata $(find /repo/src -name '*.rs') 2>/dev/null | grep -E "^/repo/src|^Filename|^TOTAL" > work/coverage/summary.txt || true
 $LLVM/llvm-cov show $T/target/release/bpharness -instr-profile=$T/all.profdata --show-line-counts-or-regions=false $(find /repo/src -name '*.rs') 2>/dev/null \
   | python3 tools/cov_uncovered.py > work/coverage/uncovered.txt
